@@ -518,6 +518,10 @@ def judge_c06(case, lab):
     has_callables = any(nd["k"] in ("fnapp", "ds", "apply", "bind") for nd in case["nodes"])
     res.nontrivial = has_callables and len(visited) < len(case["nodes"])
     for what in ("evaluate", "validate", "keys", "explain"):
+        if what != "evaluate" and not a["eval"]["ok"]:
+            # when the reference evaluation fails early, validate / keys / explain may legitimately
+            # look at selectors beyond the point of failure (e.g. Map.explain's static fallback)
+            continue
         gg = _fresh(case, lab)
         fn = getattr(gg.root, what)
         observe.call(lambda: fn(copy.deepcopy(o)), lab)
